@@ -76,3 +76,313 @@ Proof.
   split; [reflexivity|]. split; [reflexivity|]. split; [reflexivity|].
   apply wf_snoc; [exact Hwf | discriminate | exact Ed | apply parent_dir; exact Ep].
 Qed.
+
+(* ---- rename keeps the tree well formed and moves the subtree ---- *)
+Lemma strip_some : forall s p r, strip s p = Some r <-> p = s ++ r.
+Proof.
+  induction s as [|x s IH]; intros p r; cbn [strip app].
+  - split; [intros H; inversion H; reflexivity | intros ->; reflexivity].
+  - destruct p as [|y p]; [split; [discriminate | discriminate]|].
+    destruct (x =? y) eqn:E.
+    + apply Nat.eqb_eq in E. subst y. rewrite IH. split; [intros ->; reflexivity | intros H; inversion H; reflexivity].
+    + apply Nat.eqb_neq in E. split; [discriminate | intros H; inversion H; congruence].
+Qed.
+
+Lemma strip_none : forall s p, strip s p = None <-> under s p = false.
+Proof.
+  induction s as [|x s IH]; intros p; cbn [strip under].
+  - split; discriminate.
+  - destruct p as [|y p]; [split; reflexivity|].
+    destruct (x =? y); cbn [andb]; [apply IH | split; reflexivity].
+Qed.
+
+Definition mv (s d p : path) : path := match strip s p with Some r => d ++ r | None => p end.
+
+Lemma move_entry_mv : forall s d e, move_entry s d e = (mv s d (fst e), snd e).
+Proof. intros s d [p k]. unfold move_entry, mv. cbn [fst snd]. destruct (strip s p); reflexivity. Qed.
+
+(* mv is injective on paths that are not under d (d itself included) *)
+Lemma mv_inj : forall s d p q, under d p = false -> under d q = false -> mv s d p = mv s d q -> p = q.
+Proof.
+  intros s d p q Hp Hq H. unfold mv in H.
+  destruct (strip s p) as [r1|] eqn:E1; destruct (strip s q) as [r2|] eqn:E2.
+  - apply strip_some in E1. apply strip_some in E2. apply app_inv_head in H. subst. reflexivity.
+  - subst q. rewrite under_app in Hq. discriminate.
+  - subst p. rewrite under_app in Hp. discriminate.
+  - exact H.
+Qed.
+
+Lemma nodup_map_inj_on {A B} : forall (f : A -> B) (l : list A),
+  (forall x y, In x l -> In y l -> f x = f y -> x = y) -> NoDup l -> NoDup (map f l).
+Proof.
+  intros f. induction l as [|a l IH]; intros Hinj Hnd; cbn [map]; [constructor|].
+  inversion Hnd as [|? ? Hni Hnd']; subst. constructor.
+  - intros Hin. apply in_map_iff in Hin. destruct Hin as [x [Hx Hin]]. apply Hni.
+    rewrite <- (Hinj x a (or_intror Hin) (or_introl eq_refl) Hx). exact Hin.
+  - apply IH; [|exact Hnd']. intros x y Hx Hy. apply Hinj; right; assumption.
+Qed.
+
+Lemma assoc_map_mv : forall s d t0 q, (forall e, In e t0 -> under d (fst e) = false) -> under d q = false ->
+  assoc (map (move_entry s d) t0) (mv s d q) = assoc t0 q.
+Proof.
+  intros s d. induction t0 as [|[p k] t0 IH]; intros q Hall Hq; cbn [map assoc]; [reflexivity|].
+  rewrite move_entry_mv. cbn [fst snd assoc].
+  assert (Hp : under d p = false) by (apply (Hall (p, k)); left; reflexivity).
+  destruct (path_eqb p q) eqn:E.
+  - apply path_eqb_eq in E. subst q. rewrite path_eqb_refl. reflexivity.
+  - assert (E' : path_eqb (mv s d p) (mv s d q) = false).
+    { apply path_eqb_neq. intros H. apply mv_inj in H; [|assumption|assumption]. subst q. rewrite path_eqb_refl in E. discriminate. }
+    rewrite E'. apply IH; [|exact Hq]. intros e He. apply Hall. right. exact He.
+Qed.
+
+Lemma mv_ne : forall s d p, d <> [] -> p <> [] -> mv s d p <> [].
+Proof.
+  intros s d p Hd Hp. unfold mv. destruct (strip s p); [|exact Hp]. intros H. apply app_eq_nil in H. destruct H. congruence.
+Qed.
+
+Lemma kind_at_map_mv : forall s d t0 q, d <> [] -> (forall e, In e t0 -> under d (fst e) = false) -> under d q = false -> q <> [] ->
+  kind_at (map (move_entry s d) t0) (mv s d q) = kind_at t0 q.
+Proof.
+  intros s d t0 q Hd Hall Hq Hne. rewrite kind_at_cons by (apply mv_ne; assumption). rewrite kind_at_cons by exact Hne.
+  apply assoc_map_mv; assumption.
+Qed.
+
+Lemma under_self_removelast : forall d, d <> [] -> under d (removelast d) = false.
+Proof.
+  intros d Hd. destruct (snoc_cases d) as [->|[d' [x ->]]]; [congruence|]. rewrite removelast_snoc. apply under_snoc_self.
+Qed.
+
+(* the general statement about re-prefixing a subtree: t0 has nothing at or below d, s is there, d's parent is a directory that
+   is not inside s; then moving s to d keeps the tree well formed and every path's kind follows it *)
+Lemma move_wf : forall t0 s d ks, wf t0 -> s <> [] -> d <> [] ->
+  (forall e, In e t0 -> under d (fst e) = false) ->
+  kind_at t0 s = Some ks -> under s d = false ->
+  kind_at t0 (removelast d) = Some KDir ->
+  wf (map (move_entry s d) t0).
+Proof.
+  intros t0 s d ks [Hnd Hpar] Hs Hd Hall Hks Hsd Hpd.
+  assert (Hwf0 : wf t0) by (split; assumption).
+  split.
+  - rewrite map_map. rewrite (map_ext _ (fun e => mv s d (fst e))) by (intros e; rewrite move_entry_mv; reflexivity).
+    rewrite <- (map_map fst (mv s d)). apply nodup_map_inj_on; [|exact Hnd].
+    intros x y Hx Hy. apply in_map_iff in Hx. destruct Hx as [ex [<- Hex]]. apply in_map_iff in Hy. destruct Hy as [ey [<- Hey]].
+    apply mv_inj; apply Hall; assumption.
+  - intros p' k Hin. apply in_map_iff in Hin. destruct Hin as [[p k0] [Heq Hin]]. rewrite move_entry_mv in Heq. cbn [fst snd] in Heq.
+    inversion Heq; subst p' k0. destruct (Hpar p k Hin) as [Hp Hk]. split; [apply mv_ne; assumption|].
+    assert (Hpd' : under d p = false) by (apply (Hall (p, k)); exact Hin).
+    unfold mv. destruct (strip s p) as [r|] eqn:Es.
+    + apply strip_some in Es. subst p.
+      destruct (snoc_cases r) as [->|[r' [c ->]]].
+      * (* the moved root: its new parent is d's parent, which stays where it is *)
+        rewrite app_nil_r. destruct (removelast d) as [|x q] eqn:Er; [reflexivity|].
+        assert (Hu : under d (x :: q) = false) by (rewrite <- Er; apply under_self_removelast; exact Hd).
+        assert (Hns : strip s (x :: q) = None).
+        { apply strip_none. destruct (under s (x :: q)) eqn:E; [|reflexivity]. rewrite <- Er in E. apply under_removelast in E. congruence. }
+        assert (Hmv : mv s d (x :: q) = x :: q) by (unfold mv; rewrite Hns; reflexivity).
+        rewrite <- Hmv. rewrite kind_at_map_mv; [exact Hpd | exact Hd | exact Hall | exact Hu | discriminate].
+      * (* below the moved root: the parent moves along *)
+        rewrite !app_assoc, removelast_snoc. rewrite app_assoc, removelast_snoc in Hk.
+        assert (Hne : s ++ r' <> []) by (destruct s; [congruence | discriminate]).
+        assert (Hin' : In (s ++ r', KDir) t0) by (apply assoc_in; rewrite <- kind_at_cons by exact Hne; exact Hk).
+        assert (Hu : under d (s ++ r') = false) by (apply (Hall (s ++ r', KDir)); exact Hin').
+        assert (Hmv : mv s d (s ++ r') = d ++ r').
+        { unfold mv. destruct (strip s (s ++ r')) as [r2|] eqn:E2; [apply strip_some in E2; apply app_inv_head in E2; subst; reflexivity|].
+          apply strip_none in E2. rewrite under_app in E2. discriminate. }
+        rewrite <- Hmv. rewrite kind_at_map_mv; [exact Hk | exact Hd | exact Hall | exact Hu | exact Hne].
+    + (* an entry outside s stays, and so does its parent *)
+      apply strip_none in Es. destruct (removelast p) as [|x q] eqn:Er; [reflexivity|].
+      assert (Hin' : In (x :: q, KDir) t0) by (apply assoc_in; exact Hk).
+      assert (Hu : under d (x :: q) = false) by (apply (Hall (x :: q, KDir)); exact Hin').
+      assert (Hns : strip s (x :: q) = None).
+      { apply strip_none. destruct (under s (x :: q)) eqn:E; [|reflexivity]. rewrite <- Er in E. apply under_removelast in E. congruence. }
+      assert (Hmv : mv s d (x :: q) = x :: q) by (unfold mv; rewrite Hns; reflexivity).
+      rewrite <- Hmv. rewrite kind_at_map_mv; [exact Hk | exact Hd | exact Hall | exact Hu | discriminate].
+Qed.
+
+Lemma remove_entry_nondir : forall t d, wf t -> d <> [] -> kind_at t d <> Some KDir -> remove_entry t d = filter (notunder d) t.
+Proof.
+  intros t d Hwf Hd Hk. destruct (kind_at t d) as [k|] eqn:E.
+  - apply (remove_entry_is_filter t d k Hwf E). congruence.
+  - unfold remove_entry, notunder. apply filter_ext_in. intros [q l] Hin. cbn [fst]. f_equal.
+    destruct (under d q) eqn:Eu.
+    + exfalso. apply under_iff in Eu. destruct Eu as [r ->].
+      assert (Hq : kind_at t (d ++ r) = Some l).
+      { rewrite kind_at_cons by (destruct d; [congruence | discriminate]). apply in_assoc; [apply Hwf | exact Hin]. }
+      destruct r as [|x r]; [rewrite app_nil_r in Hq; congruence|].
+      rewrite (wf_ancestor t d (x :: r) l Hwf Hq) in E by discriminate. discriminate.
+    + apply path_eqb_neq. intros ->. rewrite under_refl in Eu. discriminate.
+Qed.
+
+Lemma app_eq_prefix : forall (a b r1 r2 : path), a ++ r1 = b ++ r2 -> under a b = true \/ under b a = true.
+Proof.
+  induction a as [|x a IH]; intros b r1 r2 E; [left; reflexivity|].
+  destruct b as [|y b]; [right; reflexivity|]. cbn [app] in E. inversion E; subst. cbn [under]. rewrite Nat.eqb_refl. cbn [andb].
+  apply (IH b r1 r2). assumption.
+Qed.
+
+(* what a successful os.Rename of s to another name d does *)
+Theorem rename_ok : forall t s d t', wf t -> p_rename t s d = Some (TOk, t') -> s <> d ->
+  wf t' /\
+  (forall r, kind_at t' (d ++ r) = kind_at t (s ++ r)) /\
+  (forall q, under s q = false -> under d q = false -> kind_at t' q = kind_at t q).
+Proof.
+  intros t s d t' Hwf H Hsd. unfold p_rename in H.
+  destruct s as [|s0 s]; [discriminate|]. destruct d as [|d0 d]; [discriminate|].
+  set (S := s0 :: s) in *. set (D := d0 :: d) in *.
+  assert (HS : S <> []) by discriminate. assert (HD : D <> []) by discriminate.
+  assert (Hnd : kind_at t D <> Some KDir /\ sys_rename t S D = Some (TOk, t')).
+  { destruct (lstat t D) as [[| |]| | |] eqn:El; try discriminate.
+    - destruct (lstat t S); discriminate.
+    - split; [|exact H]. intros Hk. rewrite (lstat_exists t D KDir Hwf Hk) in El. discriminate.
+    - split; [|exact H]. intros Hk. rewrite (lstat_exists t D KDir Hwf Hk) in El. discriminate.
+    - split; [|exact H]. intros Hk. rewrite (lstat_exists t D KDir Hwf Hk) in El. discriminate.
+    - split; [|exact H]. intros Hk. rewrite (lstat_exists t D KDir Hwf Hk) in El. discriminate. }
+  destruct Hnd as [HkD Hsys]. clear H. unfold sys_rename in Hsys. fold S D in Hsys.
+  change (match S with [] => None | _ :: _ => match D with [] => None | _ :: _ => ?x end end) with x in Hsys.
+  destruct (parent_look t S) as [[| |]| | |] eqn:EpS; try discriminate.
+  destruct (parent_look t D) as [[| |]| | |] eqn:EpD; try discriminate.
+  destruct (kind_at t S) as [ks|] eqn:EkS; [|discriminate].
+  destruct (path_eqb S D) eqn:Eeq; [apply path_eqb_eq in Eeq; congruence|].
+  destruct (under S D) eqn:EuSD; [discriminate|].
+  assert (Ht' : t' = map (move_entry S D) (remove_entry t D)).
+  { destruct (kind_at t D) as [kd|] eqn:EkD; [|inversion Hsys; reflexivity].
+    destruct ks, kd; try discriminate; try congruence; inversion Hsys; reflexivity. }
+  clear Hsys. rewrite (remove_entry_nondir t D Hwf HD HkD) in Ht'.
+  set (t0 := filter (notunder D) t) in *.
+  assert (Hwf0 : wf t0) by (apply wf_filter_notunder; assumption).
+  assert (Hall : forall e, In e t0 -> under D (fst e) = false).
+  { intros e He. apply filter_In in He. destruct He as [_ He]. unfold notunder in He. apply negb_true_iff in He. exact He. }
+  assert (HuDS : under D S = false).
+  { destruct (under D S) eqn:E; [|reflexivity]. exfalso. apply under_iff in E. destruct E as [r Er].
+    destruct r as [|x r]; [rewrite app_nil_r in Er; congruence|].
+    rewrite Er in EkS. rewrite (wf_ancestor t D (x :: r) ks Hwf EkS) in HkD by discriminate. congruence. }
+  assert (Hk0 : forall q, under D q = false -> kind_at t0 q = kind_at t q).
+  { intros q Hq. apply kind_at_filter_notunder; assumption. }
+  assert (HpD : kind_at t0 (removelast D) = Some KDir).
+  { rewrite Hk0 by (apply under_self_removelast; exact HD). apply parent_dir. exact EpD. }
+  subst t'. split; [|split].
+  - apply (move_wf t0 S D ks Hwf0 HS HD Hall); [rewrite Hk0 by exact HuDS; exact EkS | exact EuSD | exact HpD].
+  - intros r.
+    assert (Hu : under D (S ++ r) = false).
+    { destruct (under D (S ++ r)) eqn:E; [|reflexivity]. exfalso.
+      (* D at or above S ++ r while neither of S, D is above the other: D would have to lie strictly inside S's subtree... *)
+      apply under_iff in E. destruct E as [r2 E].
+      (* S ++ r = D ++ r2: one of S, D is a prefix of the other *)
+      assert (Hpre : under S D = true \/ under D S = true) by (apply (app_eq_prefix S D r r2 E)).
+      destruct Hpre; congruence. }
+    assert (Hmv : mv S D (S ++ r) = D ++ r).
+    { unfold mv. destruct (strip S (S ++ r)) as [r2|] eqn:E2; [apply strip_some in E2; apply app_inv_head in E2; subst; reflexivity|].
+      apply strip_none in E2. rewrite under_app in E2. discriminate. }
+    rewrite <- Hmv. rewrite kind_at_map_mv; [apply Hk0; exact Hu | exact HD | exact Hall | exact Hu | destruct S; [congruence | discriminate]].
+  - intros q HqS HqD. destruct q as [|x q]; [reflexivity|].
+    assert (Hmv : mv S D (x :: q) = x :: q).
+    { unfold mv. destruct (strip S (x :: q)) eqn:E2; [|reflexivity]. apply strip_some in E2. rewrite E2, under_app in HqS. discriminate. }
+    rewrite <- Hmv at 1. rewrite kind_at_map_mv; [apply Hk0; exact HqD | exact HD | exact Hall | exact HqD | discriminate].
+Qed.
+
+Theorem rename_wf : forall t s d c t', wf t -> p_rename t s d = Some (c, t') -> wf t'.
+Proof.
+  intros t s d c t' Hwf H. destruct c.
+  - destruct (list_eq_dec Nat.eq_dec s d) as [->|Hne].
+    + (* onto itself: nothing happens *)
+      assert (t' = t); [|subst; exact Hwf].
+      unfold p_rename in H. destruct d as [|d0 d]; [discriminate|].
+      destruct (lstat t (d0 :: d)) as [[| |]| | |]; try discriminate; try (destruct (lstat t (d0 :: d)); discriminate);
+        unfold sys_rename in H;
+        destruct (parent_look t (d0 :: d)) as [[| |]| | |]; try discriminate;
+        destruct (kind_at t (d0 :: d)); try discriminate; rewrite path_eqb_refl in H; inversion H; reflexivity.
+    + apply (rename_ok t s d t' Hwf H Hne).
+  - rewrite (rename_fail_same t s d TNotExist t' H) by discriminate. exact Hwf.
+  - rewrite (rename_fail_same t s d TOther t' H) by discriminate. exact Hwf.
+Qed.
+
+Lemma link_wf : forall t s d c t', wf t -> p_link t s d = Some (c, t') -> wf t'.
+Proof.
+  intros t s d c t' Hwf H. destruct c.
+  - destruct (link_ok t s d t' Hwf H) as (k & _ & _ & _ & _ & Hw). exact Hw.
+  - rewrite (link_fail_same t s d TNotExist t' H) by discriminate. exact Hwf.
+  - rewrite (link_fail_same t s d TOther t' H) by discriminate. exact Hwf.
+Qed.
+
+Lemma symlink_wf : forall e t l c t', wf t -> p_symlink e t l = Some (c, t') -> wf t'.
+Proof.
+  intros e t l c t' Hwf H. destruct c.
+  - destruct (symlink_ok e t l t' Hwf H) as (_ & _ & _ & Hw). exact Hw.
+  - rewrite (symlink_fail_same e t l TNotExist t' H) by discriminate. exact Hwf.
+  - rewrite (symlink_fail_same e t l TOther t' H) by discriminate. exact Hwf.
+Qed.
+
+(* ---- sequences over the whole set of modelled operations ---- *)
+Inductive fsop2 :=
+| OBase (o : fsop)
+| ORename (s d : path) | OPosixRename (s d : path)     (* two requests, one os call on this server *)
+| OLink (s d : path) | OSymlink (empty_target : bool) (l : path).
+
+Definition os_op2 (t : tree) (o : fsop2) : option (cat * tree) :=
+  match o with
+  | OBase o => os_op t o
+  | ORename s d | OPosixRename s d => p_rename t s d
+  | OLink s d => p_link t s d
+  | OSymlink e l => p_symlink e t l
+  end.
+
+Definition client_op2 (t : tree) (o : fsop2) : option (cat * tree) :=
+  match o with
+  | OBase o => client_op t o
+  | ORename s d | OPosixRename s d => p_rename t s d
+  | OLink s d => p_link t s d
+  | OSymlink e l => p_symlink e t l
+  end.
+
+Fixpoint run_ops2 (step : tree -> fsop2 -> option (cat * tree)) (t : tree) (ops : list fsop2) : option (list cat * tree) :=
+  match ops with
+  | [] => Some ([], t)
+  | o :: rest =>
+      match step t o with
+      | Some (c, t1) => match run_ops2 step t1 rest with Some (cs, t2) => Some (c :: cs, t2) | None => None end
+      | None => None
+      end
+  end.
+
+Lemma os_op2_wf : forall t o c t', wf t -> os_op2 t o = Some (c, t') -> wf t'.
+Proof.
+  intros t o c t' Hwf H. destruct o as [o|s d|s d|s d|e l]; cbn [os_op2] in H.
+  - exact (os_op_wf t o c t' Hwf H).
+  - exact (rename_wf t s d c t' Hwf H).
+  - exact (rename_wf t s d c t' Hwf H).
+  - exact (link_wf t s d c t' Hwf H).
+  - exact (symlink_wf e t l c t' Hwf H).
+Qed.
+
+Lemma client_op2_refines : forall t o r, wf t -> os_op2 t o = Some r -> client_op2 t o = Some r.
+Proof.
+  intros t o r Hwf H. destruct o as [o|s d|s d|s d|e l]; cbn [os_op2 client_op2] in *; try exact H.
+  apply client_op_refines; assumption.
+Qed.
+
+Theorem run_ops2_wf : forall ops t cs t', wf t -> run_ops2 os_op2 t ops = Some (cs, t') -> wf t'.
+Proof.
+  induction ops as [|o ops IH]; intros t cs t' Hwf H; cbn [run_ops2] in H; [inversion H; subst; exact Hwf|].
+  destruct (os_op2 t o) as [[c t1]|] eqn:E; [|discriminate].
+  destruct (run_ops2 os_op2 t1 ops) as [[cs1 t2]|] eqn:E2; [|discriminate]. inversion H; subst.
+  apply (IH t1 cs1 t' (os_op2_wf t o c t1 Hwf E) E2).
+Qed.
+
+Theorem client_sequences2_refine_os : forall ops t r, wf t -> run_ops2 os_op2 t ops = Some r -> run_ops2 client_op2 t ops = Some r.
+Proof.
+  induction ops as [|o ops IH]; intros t r Hwf H; cbn [run_ops2] in *; [exact H|].
+  destruct (os_op2 t o) as [[c t1]|] eqn:E; [|discriminate].
+  rewrite (client_op2_refines t o (c, t1) Hwf E).
+  destruct (run_ops2 os_op2 t1 ops) as [[cs1 t2]|] eqn:E2; [|discriminate].
+  rewrite (IH t1 (cs1, t2) (os_op2_wf t o c t1 Hwf E) E2). exact H.
+Qed.
+
+(* os.Rename never replaces a directory, not even an empty one (rename(2) would): the refutation of the plain system call as
+   a model of what the server does *)
+Theorem rename_onto_empty_dir_refuted : exists t s d,
+  wf t /\ sys_rename t s d = Some (TOk, [(d, KDir)]) /\ p_rename t s d = Some (TOther, t).
+Proof.
+  exists [([1], KDir); ([2], KDir)], [1], [2]. split; [|split; reflexivity].
+  split; [repeat constructor; cbn; intuition discriminate|].
+  intros p k [H|[H|[]]]; inversion H; subst; split; try discriminate; reflexivity.
+Qed.
